@@ -19,12 +19,14 @@ from hugr.ops import (
     Const,
     Custom,
     DataflowBlock,
+    DataflowOp,
     ExitBlock,
     FuncDecl,
     FuncDefn,
     Input,
     LoadConst,
     LoadFunc,
+    Op,
     Output,
     Tag,
     TailLoop,
@@ -58,8 +60,9 @@ class ModelExport:
         """Export the node with the given node id."""
         node_data = self.hugr[node]
 
-        inputs = [self.link_name(InPort(node, i)) for i in range(node_data._num_inps)]
-        outputs = [self.link_name(OutPort(node, i)) for i in range(node_data._num_outs)]
+        num_inputs, num_outputs = _num_value_ports(node_data.op)
+        inputs = [self.link_name(InPort(node, i)) for i in range(num_inputs)]
+        outputs = [self.link_name(OutPort(node, i)) for i in range(num_outputs)]
         meta = []
 
         # Export JSON metadata
@@ -401,15 +404,13 @@ class ModelExport:
                 case Input() as op:
                     source_types = model.List([type.to_model() for type in op.types])
                     sources = [
-                        self.link_name(OutPort(child, i))
-                        for i in range(child_data._num_outs)
+                        self.link_name(OutPort(child, i)) for i in range(len(op.types))
                     ]
 
                 case Output() as op:
                     target_types = model.List([type.to_model() for type in op.types])
                     targets = [
-                        self.link_name(InPort(child, i))
-                        for i in range(child_data._num_inps)
+                        self.link_name(InPort(child, i)) for i in range(len(op.types))
                     ]
 
                 case _:
@@ -557,6 +558,23 @@ class ModelExport:
                 return op.val.to_model()
             case op:
                 return None
+
+
+def _num_value_ports(op: Op) -> tuple[int, int]:
+    """The number of input and output ports that a node lists in the model:
+    the value ports of its dataflow signature. The static input of a call or
+    load and the state order ports are not listed. The port counts tracked by
+    the hugr cannot be used: they cover the static input once it is linked and
+    miss trailing ports that are not linked.
+    """
+    match op:
+        case Call():
+            sig = op.instantiation
+        case DataflowOp():
+            sig = op.outer_signature()
+        case _:
+            return 0, 0
+    return len(sig.input), len(sig.output)
 
 
 def _mangle_name(node: Node, name: str) -> str:
